@@ -112,6 +112,34 @@ def rtext(fn, node, keep=()):
     return unparse(resolve(fn, node, 0, keep))
 
 
+def local_value(st, name, fn):
+    """What `name` holds at statement `st`: the value of the closest preceding unconditional
+    assignment in the enclosing blocks (ast node), ('loop', For) when it is the target of an
+    enclosing loop, None when a conditional or repeated binding intervenes."""
+    cur = st
+    while cur is not None and cur is not fn:
+        par = getattr(cur, "_parent", None)
+        if par is None:
+            return None
+        for field in ("body", "orelse", "finalbody"):
+            blk = getattr(par, field, None)
+            if isinstance(blk, list) and any(x is cur for x in blk):
+                k = [i for i, x in enumerate(blk) if x is cur][0]
+                for prev in reversed(blk[:k]):
+                    if isinstance(prev, ast.Assign) and len(prev.targets) == 1 \
+                            and isinstance(prev.targets[0], ast.Name) \
+                            and prev.targets[0].id == name:
+                        return prev.value
+                    if any(isinstance(n, ast.Name) and n.id == name
+                           and isinstance(n.ctx, (ast.Store, ast.Del)) for n in ast.walk(prev)):
+                        return None
+        if isinstance(par, ast.For) and any(
+                isinstance(n, ast.Name) and n.id == name for n in ast.walk(par.target)):
+            return ("loop", par)
+        cur = par
+    return None
+
+
 def role_of(fn, name):
     """what a local name stands for, independent of its spelling"""
     params = [a.arg for a in fn.args.args]
@@ -1470,10 +1498,17 @@ def restart_selection(rep):
                 and isinstance(n.value.func, ast.Attribute) and n.value.func.attr == "append":
             tgt = n.value.func.value
         if not (isinstance(tgt, ast.Subscript) and isinstance(tgt.slice, ast.Constant)
-                and tgt.slice.value == "it to do" and isinstance(tgt.value, ast.Subscript)
-                and isinstance(tgt.value.slice, ast.Name)):
+                and tgt.slice.value == "it to do"):
             continue
-        rname = tgt.value.slice.id
+        base = tgt.value
+        if isinstance(base, ast.Name):
+            # a local alias of the restart's entry: what it holds at this statement
+            v_ = local_value(n, base.id, fn)
+            if isinstance(v_, ast.AST):
+                base = v_
+        if not (isinstance(base, ast.Subscript) and isinstance(base.slice, ast.Name)):
+            continue
+        rname = base.slice.id
         loops = [a for a in ancestors(n) if isinstance(a, (ast.For, ast.While))]
         scan = [lp for lp in loops if isinstance(lp, ast.For) and (
             unparse(lp.target) == rname
